@@ -32,6 +32,8 @@ def main():
     ap.add_argument('--checks', default=None)
     ap.add_argument('--seed', type=int, default=1)
     ap.add_argument('--missed', action='store_true')
+    ap.add_argument('--own', action='store_true', help="run only the change's own property check and record it under seed_runs[seed]")
+    ap.add_argument('--demo-only', action='store_true', help='only re-run the demonstrations on HEAD + patch')
     a = ap.parse_args()
     ids = sorted(d for d in os.listdir(os.path.join(HERE, 'seeded')) if os.path.isdir(os.path.join(HERE, 'seeded', d)))
     if a.only:
@@ -45,6 +47,8 @@ def main():
         if a.missed and prop in (ver.get('caught_by') or []):
             continue
         checks = a.checks.split(',') if a.checks else sorted(set(list((ver.get('checks') or {}).keys()) + [prop]))
+        if a.own:
+            checks = [prop]
         scratch = '/tmp/recheck_%s' % sid
         sh('git -C /repo worktree remove --force %s/wt' % scratch)
         shutil.rmtree(scratch, ignore_errors=True)
@@ -60,14 +64,37 @@ def main():
                 continue
             ver['patch_applies_on_head'] = True
             ver.setdefault('checks', {})
+            # does the change still break the property on the current (repaired) tree?
+            import re
+            os.makedirs(scratch + '/pkg', exist_ok=True)
+            if not os.path.exists(scratch + '/pkg/cpppo'):
+                os.symlink(scratch + '/wt', scratch + '/pkg/cpppo')
+            text = re.sub(r'/tmp/agent2?_C\d\d', scratch, open(os.path.join(d, 'demo.py')).read())
+            os.makedirs(scratch + '/out/m', exist_ok=True)
+            open(scratch + '/out/m/demo.py', 'w').write(text)
+            try:
+                rc_d, out_d = sh('/venv/bin/python out/m/demo.py', env={'PYTHONPATH': scratch + '/pkg'}, cwd=scratch, timeout=900)
+            except subprocess.TimeoutExpired:
+                rc_d, out_d = 124, 'timeout'
+            ver['demo_on_head'] = {'exit': rc_d, 'tail': out_d[-200:], 'repo': sh('git -C /repo rev-parse --short HEAD')[1].strip()}
+            if rc_d == 0:
+                print('%s: demonstration PASSES on HEAD + patch: the change no longer breaks the property here' % sid, flush=True)
+            if a.demo_only:
+                json.dump(meta, open(os.path.join(d, 'meta.json'), 'w'), indent=1)
+                continue
             for c in checks:
                 cmd = './check %s --tier quick --seed %d' % (c, a.seed)
                 t0 = time.time()
                 rc_c, out_c = sh(cmd, env={'VERIF_REPO': scratch + '/wt', 'VERIF_SHRINK_S': '10'}, cwd=HERE)
                 lines = [l for l in out_c.splitlines() if l.startswith('VIOLATION') or l.startswith('  class=')]
-                ver['checks'][c] = {'cmd': cmd, 'exit': rc_c, 'caught': rc_c == 1, 'wall_s': round(time.time() - t0, 1),
+                target = ver['checks'] if not a.own else ver.setdefault('seed_runs', {}).setdefault(str(a.seed), {})
+                target[c] = {'cmd': cmd, 'exit': rc_c, 'caught': rc_c == 1, 'wall_s': round(time.time() - t0, 1),
                                     'first': lines[1][:400] if len(lines) > 1 else None,
                                     'summary': out_c.strip().splitlines()[-1][:200] if out_c.strip() else ''}
+            if a.own:
+                json.dump(meta, open(os.path.join(d, 'meta.json'), 'w'), indent=1)
+                print('%s seed %d: %s' % (sid, a.seed, 'caught' if ver['seed_runs'][str(a.seed)][prop]['caught'] else 'MISSED'), flush=True)
+                continue
             ver['caught_by'] = [c for c, v in ver['checks'].items() if v['caught']]
             ver['rechecked_at_repo'] = sh('git -C /repo rev-parse --short HEAD')[1].strip()
             json.dump(meta, open(os.path.join(d, 'meta.json'), 'w'), indent=1)
